@@ -1,6 +1,13 @@
+import os
+import sys
+
 from ..runner import Harness, Spec
 
 _FILES = {"zz_verif_c17_payload_test.go": "c17/payload_gen.go"}
+# the -race build of the stress harness is only part of the thorough tier (the runner has no per-tier harness list)
+_THOROUGH = "thorough" in sys.argv or os.environ.get("VERIF_TIER") == "thorough"
+_CARD = dict(module="processor/batchprocessor", pkg="processor/batchprocessor",
+             files={"zz_verif_c17_card_test.go": "c17/card_test.go"}, test="TestVerifC17Cardinality", driver="drv_c17")
 
 SPEC = Spec(
     pid="C17",
@@ -15,7 +22,9 @@ SPEC = Spec(
         Harness(name="proc-metrics", module="processor/batchprocessor", pkg="processor/batchprocessor", go="go1.26",
                 files=dict(_FILES, **{"zz_verif_c17_proc_test.go": "c17/proc_test.go"}),
                 test="TestVerifC17ProcMetrics", driver="drv_c17", n={"quick": 600, "thorough": 40000}, timeout_s=1500),
-    ],
+        Harness(name="cardinality-concurrent", n={"quick": 3000, "thorough": 30000}, timeout_s=1500, **_CARD),
+    ] + ([Harness(name="cardinality-concurrent-race", race=True, n={"quick": 500, "thorough": 5000}, timeout_s=1500, **_CARD)]
+         if _THOROUGH else []),
     rule="split: corpus first (design-time witnesses: 3 records in one scope, size 2; 4-point sum with metadata, size 3), then "
          "generated payload trees (0-4 resources x 0-4 scopes x 0-6 items, metrics 0-4 metrics x 0-6 points of all five types + "
          "empty type, empty containers at every level) through the real splitLogs/splitTraces/splitMetrics with size in "
@@ -23,7 +32,10 @@ SPEC = Spec(
          "proc: the real processor in a synctest bubble, 1-10 labels (arrive payload with client metadata / advance virtual "
          "time) then Shutdown, configs from the validated space incl. send_batch_size=0, max=0, timeout=0, 0-2 metadata keys "
          "with mixed-case header names, absent/empty/single/multi values, cardinality limit 0-3; non-trivial = >= 2 metadata "
-         "groups or send_batch_max_size set. distinct = distinct op lines (sha1).",
+         "groups or send_batch_max_size set. cardinality-concurrent: native goroutines (GOMAXPROCS >= 4), limit 1-3, 0..limit-1 groups "
+         "created first, then 8-16 producers released at once through a barrier whose first requests carry more distinct unseen "
+         "values than the limit allows; monitor only (accept/refuse/emit log judged by the Lean monitor and a direct oracle); the "
+         "same under -race in thorough; every trial is non-trivial. distinct = distinct op lines (sha1).",
     trusted_base=[
         "Lean 4.33.0 kernel; axioms per theorem listed under axioms_per_theorem (subset of propext, Classical.choice, Quot.sound)",
         "hand-written model of splitLogs/splitTraces/splitMetrics/splitMetric, batch*.add/split, shard.startLoop/processItem/"
@@ -35,6 +47,9 @@ SPEC = Spec(
         "testing/synctest (go1.26): virtual time, run to quiescence after every label; one producer",
     ],
     assumptions=[
+        "multiShardBatcher.consume (lookup, limit check, shard insertion, size++) is ONE atomic label of the model (Proc.arrive): the code "
+        "makes it so with mb.lock around check+insert; this atomicity is a modelling assumption, monitored by the native-goroutine "
+        "stress harness cardinality-concurrent (also with -race), not proved",
         "the shard goroutine handles an arrival before virtual time advances (goroutine scheduling and timer wake-up latency are "
         "outside the model: C17_timeout is partial)",
         "downstream accepts every batch (the property conditions on it; on an export error sendItems drops the batch)",
